@@ -7,7 +7,8 @@
    sqlparser's MySQL-dialect token.go).  Every theorem quantifies over ARBITRARY byte strings. *)
 From Coq Require Import SpecFloat.
 From GenqlV Require Import Base.Prelude Base.Fmt Model.MySqlString Model.Sanitizer Spec.C16Spec
-  Proofs.C16Quote Proofs.C16SimA Proofs.C16SimB Proofs.C16Pos Proofs.C16Tokens Proofs.C16Errors.
+  Proofs.C16Quote Proofs.C16SimA Proofs.C16SimB Proofs.C16Pos Proofs.C16Tokens Proofs.C16Errors
+  Proofs.C16ShapeA Proofs.C16ShapeB Proofs.C16ShapeC Proofs.C16ShapeD Proofs.C16ShapeE.
 Local Open Scope string_scope.
 
 (* ------------------------------------------------------------------------------------------
@@ -100,19 +101,40 @@ Proof. exact placeholder_positions_iff. Qed.
 Print Assumptions C16_placeholder_positions_iff.
 
 (* ------------------------------------------------------------------------------------------
-   4. Shape.  Full statement (NOT proved):
-        wf_template t -> sanitize_sql t args = Ok out ->
-        shape_ok t (sargs_of args) out = true
-      i.e. the consumer's token stream of the output is the token stream of the template with each
-      placeholder token replaced by the literal token(s) of its argument ([shape_ok] is evaluated
-      by the correspondence check on the REAL output of every generated case).
-      Proved: (a) what a successful Sanitize returns is the parts with every placeholder replaced
-      by the formatted argument; (b) every formatted argument, in any following context that does
-      not fuse with it, is exactly one literal token and leaves the tokenizer at a token boundary
-      -- argument content can neither open nor close a mode.
-      Missing: the induction over the template that glues (a), (b) and C16_placeholder_positions
-      together, which needs that the tokenizer's two-byte look-ahead at the end of a raw part
-      answers the same on "$n" and on the literal written in its place. *)
+   4. Shape: argument content can neither add, remove nor alter tokens.
+
+   C16_shape (full statement): for a well-formed template and arguments of the supported types,
+   the consumer's token stream of the sanitized text is the token stream of the template in which
+   every placeholder token "$n" is replaced by the literal token(s) denoting argument n, and
+   every other token is byte-for-byte the same.  [shape_ok] (Spec/C16Spec.v) is exactly the
+   specification the correspondence check evaluates on the real output: it walks
+   [mysql_tokens t] and [mysql_tokens out] side by side; at a "$n" token it demands, by
+   [eat_literal], one string token whose scanned value ([mysql_scan_string]) is the argument, or
+   the decimal text of the integer (a "-" token first when negative), or a number token with the
+   float's text, or null / true / false.  [sarg_of] (Proofs/C16ShapeD.v) maps an argument to what
+   the specification expects (for a float: sign and the text of Model/Sanitizer.fmt_f).
+   Unsupported arguments make sanitize_sql fail, so "= Ok out" covers "supported types". *)
+Theorem C16_shape : forall t args out,
+  wf_template t -> sanitize_sql t args = Ok out ->
+  shape_ok t (map sarg_of args) out = true.
+Proof. exact shape_tokens. Qed.
+Print Assumptions C16_shape.
+
+(* the same at the level of lexical modes, with the witness made explicit: template and output are
+   the concatenation of the same chunks (Proofs/C16ShapeC.v: raw text r with the modes ms of its
+   bytes | placeholder "$ds" with its argument a and the text txt written for it); every raw byte
+   has the SAME mode in the template and in the output, a placeholder is one word token in the
+   template and [lit_modes] of its literal in the output -- no argument opens or closes a mode. *)
+Theorem C16_shape_modes : forall t args out,
+  wf_template t -> sanitize_sql t args = Ok out ->
+  exists cs, t = tmpl_of cs /\ out = out_of cs /\
+             mmodes MDef t = tmodes_of cs /\ mmodes MDef out = omodes_of cs /\
+             Forall (chunk_ok args) cs.
+Proof. exact shape_modes. Qed.
+Print Assumptions C16_shape_modes.
+
+(* the two ingredients stated on their own (they were the partial result before C16_shape was
+   finished): what a successful Sanitize returns, and one literal = one token in any context *)
 Theorem C16_shape_partial_text : forall parts args out,
   sanitize parts args = Ok out -> render parts args = Some out.
 Proof. exact sanitize_ok_text. Qed.
@@ -188,4 +210,16 @@ Example C16_nonvacuous :
   sanitize_sql "SELECT $1" [AStr "x"; AStr "y"] = Err /\
   sanitize_sql "SELECT $1" [AOther] = Err /\
   sanitize_sql "SELECT $1" [AFloat S754_nan] = Err.
+Proof. vm_compute. repeat split. Qed.
+
+(* non-vacuity of C16_shape: its hypotheses hold for that template with a hostile string, a
+   negative integer and a float, and the conclusion is the computed token-level comparison *)
+Example C16_shape_nonvacuous :
+  let t := "SELECT 'a\'$1' AS x, `c$2`, $1 AS v FROM t WHERE n = 3-$2 AND m < $3 /* $3 */ -- $4" in
+  let args := [AStr "\' OR 1=1 -- "; AInt (-5); AFloat (S754_finite true 3 (-1))] in
+  wf_templateb t = true /\
+  sanitize_sql t args =
+    Ok "SELECT 'a\'$1' AS x, `c$2`, '\\'' OR 1=1 -- ' AS v FROM t WHERE n = 3--5 AND m < -1.5 /* $3 */ -- $4" /\
+  map sarg_of args = [SStr "\' OR 1=1 -- "; SInt (-5); SFloatText true "1.5"] /\
+  mysql_tokens "SELECT $1 AS v, 3--5" = ["SELECT"; "$1"; "AS"; "v"; ","; "3"; "-"; "-"; "5"].
 Proof. vm_compute. repeat split. Qed.
